@@ -15,6 +15,7 @@ import (
 	"testing"
 	textscanner "text/scanner"
 	texttemplate "text/template"
+	"time"
 
 	"golang.org/x/tools/go/packages"
 	"pgregory.net/rapid"
@@ -26,7 +27,9 @@ import (
 	gammav1 "vt/internal/fx/gamma/v1"
 	lcodec "vt/internal/fx/left/codec"
 	mvmodel "vt/internal/fx/multivendor/model"
+	kit1 "vt/internal/fx/one/go-kit"
 	rcodec "vt/internal/fx/right/codec"
+	kit2 "vt/internal/fx/two/go-kit"
 	yamlv3 "vt/internal/fx/yaml.v3"
 	"vt/internal/script"
 )
@@ -50,14 +53,18 @@ var fxPaths = map[string]string{
 	"htpl":  "html/template",
 	"tscan": "text/scanner",
 	"gscan": "go/scanner",
+	"time":  "time",
+	// twin packages whose directory name is not an identifier and normalises to the same import name
+	"kit1": "vt/internal/fx/one/go-kit",
+	"kit2": "vt/internal/fx/two/go-kit",
 }
 
 // fxStd: fixture keys that are standard-library packages (never a target package, never a source of values)
-var fxStd = map[string]bool{"ttpl": true, "htpl": true, "tscan": true, "gscan": true}
+var fxStd = map[string]bool{"ttpl": true, "htpl": true, "tscan": true, "gscan": true, "time": true}
 
 // fxRep: one type per fixture package (for blank declarations that keep harness-side imports used)
 var fxRep = map[string]string{"alpha": "Int", "beta": "Kind", "gamma": "Level", "delta": "Mixed", "left": "Opt", "right": "Opt", "mv": "Item",
-	"yaml": "Node", "ttpl": "Template", "htpl": "Template", "tscan": "Position", "gscan": "ErrorList"}
+	"yaml": "Node", "ttpl": "Template", "htpl": "Template", "tscan": "Position", "gscan": "ErrorList", "time": "Duration", "kit1": "Opt", "kit2": "Opt"}
 
 // fxImportedBy: the fixture packages that (transitively) import the key; a type that mentions one of them cannot be written
 // inside the key package (import cycle)
@@ -81,7 +88,7 @@ func ownTargetPossible(own string, mentioned func(pkg string) bool) bool {
 
 // harness-side import aliases used to spell types in probe files
 var fxAlias = map[string]string{"alpha": "hx_alpha", "beta": "hx_beta", "gamma": "hx_gamma", "delta": "hx_delta", "left": "hx_left", "right": "hx_right", "mv": "hx_mv",
-	"yaml": "hx_yaml", "ttpl": "hx_ttpl", "htpl": "hx_htpl", "tscan": "hx_tscan", "gscan": "hx_gscan"}
+	"yaml": "hx_yaml", "ttpl": "hx_ttpl", "htpl": "hx_htpl", "tscan": "hx_tscan", "gscan": "hx_gscan", "time": "hx_time", "kit1": "hx_kit1", "kit2": "hx_kit2"}
 
 type fixtures struct {
 	fset  *token.FileSet
@@ -330,13 +337,20 @@ var registry = func() []regEntry {
 		{nm("left", "Opt"), rtOf[lcodec.Opt]()}, {nm("left", "Mode"), rtOf[lcodec.Mode]()}, {nm("right", "Opt"), rtOf[rcodec.Opt]()}, {nm("right", "Level"), rtOf[rcodec.Level]()},
 		{nm("mv", "Item"), rtOf[mvmodel.Item]()}, {nm("mv", "Code"), rtOf[mvmodel.Code]()},
 		{nm("yaml", "Node"), rtOf[yamlv3.Node]()}, {nm("yaml", "Kind"), rtOf[yamlv3.Kind]()},
+		{nm("time", "Time"), rtOf[time.Time]()}, {nm("time", "Duration"), rtOf[time.Duration]()},
+		{nm("kit1", "Opt"), rtOf[kit1.Opt]()}, {nm("kit2", "Opt"), rtOf[kit2.Opt]()}, {nm("kit1", "Level"), rtOf[kit1.Level]()}, {nm("kit2", "Level"), rtOf[kit2.Level]()},
 		{nm("ttpl", "Template"), rtOf[texttemplate.Template]()}, {nm("htpl", "Template"), rtOf[htmltemplate.Template]()}, {nm("htpl", "HTML"), rtOf[htmltemplate.HTML]()},
 		{nm("tscan", "Position"), rtOf[textscanner.Position]()}, {nm("tscan", "Scanner"), rtOf[textscanner.Scanner]()},
 		{nm("gscan", "ErrorList"), rtOf[goscanner.ErrorList]()}, {nm("gscan", "Error"), rtOf[goscanner.Error]()},
 		// instantiations
 		{inst("alpha", "Box", nm("yaml", "Node")), rtOf[alpha.Box[yamlv3.Node]]()},
+		{inst("alpha", "Box", nm("time", "Time")), rtOf[alpha.Box[time.Time]]()},
+		{inst("alpha", "Pair", nm("time", "Duration"), nm("time", "Time")), rtOf[alpha.Pair[time.Duration, time.Time]]()},
+		{inst("alpha", "Pair", nm("kit1", "Level"), nm("kit2", "Opt")), rtOf[alpha.Pair[kit1.Level, kit2.Opt]]()},
 		{inst("alpha", "Pair", nm("yaml", "Kind"), nm("htpl", "Template")), rtOf[alpha.Pair[yamlv3.Kind, htmltemplate.Template]]()},
 		{inst("alpha", "Pair", bs("string"), nm("ttpl", "Template")), rtOf[alpha.Pair[string, texttemplate.Template]]()},
+		{inst("alpha", "Triple", nm("yaml", "Node"), inst("alpha", "Box", nm("yaml", "Kind")), nm("ttpl", "Template")), rtOf[alpha.Triple[yamlv3.Node, alpha.Box[yamlv3.Kind], texttemplate.Template]]()},
+		{inst("beta", "List", inst("alpha", "Pair", nm("yaml", "Kind"), nm("yaml", "Node"))), rtOf[betav1.List[alpha.Pair[yamlv3.Kind, yamlv3.Node]]]()},
 		{inst("alpha", "Box", bs("int")), rtOf[alpha.Box[int]]()},
 		{inst("alpha", "Box", bs("string")), rtOf[alpha.Box[string]]()},
 		{inst("alpha", "Box", nm("alpha", "Point")), rtOf[alpha.Box[alpha.Point]]()},
@@ -355,6 +369,16 @@ var registry = func() []regEntry {
 		{inst("beta", "List", inst("gamma", "List", inst("alpha", "Box", bs("int")))), rtOf[betav1.List[gammav1.List[alpha.Box[int]]]]()},
 	}
 	return r
+}()
+
+var registryInsts = func() []*tn {
+	var out []*tn
+	for _, e := range registry {
+		if e.n.K == "inst" {
+			out = append(out, e.n)
+		}
+	}
+	return out
 }()
 
 var registryByKey = func() map[string]reflect.Type {
@@ -429,7 +453,7 @@ var namedComposite = []*tn{nm("alpha", "Wide"), nm("alpha", "Strings"), nm("alph
 
 // typeOnlyNamed: named types used in type expressions only (C11), never as values: a package whose last path element has a dot,
 // and standard-library packages that compete for one import name
-var typeOnlyNamed = []*tn{nm("yaml", "Node"), nm("yaml", "Kind"), nm("yaml", "Node"), nm("ttpl", "Template"), nm("htpl", "Template"), nm("htpl", "HTML"), nm("tscan", "Position"), nm("tscan", "Scanner"),
+var typeOnlyNamed = []*tn{nm("time", "Time"), nm("time", "Duration"), nm("kit1", "Opt"), nm("kit2", "Opt"), nm("kit1", "Level"), nm("kit2", "Level"), nm("yaml", "Node"), nm("yaml", "Kind"), nm("yaml", "Node"), nm("ttpl", "Template"), nm("htpl", "Template"), nm("htpl", "HTML"), nm("tscan", "Position"), nm("tscan", "Scanner"),
 	nm("gscan", "ErrorList"), nm("gscan", "Error")}
 
 var generics = []struct {
@@ -554,6 +578,10 @@ func genType(t *rapid.T, depth int) *tn {
 		}
 		return &tn{K: "map", Key: bs("string"), Elem: &tn{K: "struct", Fields: []tf{{Name: "A", T: &tn{K: "slice", Elem: a}}, {Name: "B", T: &tn{K: "ptr", Elem: b}}}}}
 	case 1, 2:
+		if rapid.IntRange(0, 2).Draw(t, "compiledinst") == 0 {
+			// an instantiation that is compiled into the harness, so that the reflect route sees it too
+			return rapid.SampledFrom(registryInsts).Draw(t, "reginst")
+		}
 		return genInst(t, rapid.IntRange(1, 3).Draw(t, "instlevels"))
 	case 3:
 		if rapid.IntRange(0, 3).Draw(t, "ptrtonamedptr") == 0 {
